@@ -29,7 +29,7 @@ BOUNDS = {
     "quick": "safety: retained text <= 4 symbolic characters (any code point) + appended piece <= 2, both tag lists, threshold "
              "symbolic in [0,6] or disabled, arbitrary accept/reject table; liveness: junk <= 2 characters without '<', messages of 4 "
              "characters, truncation at every position, threshold symbolic",
-    "thorough": "safety with text <= 5 + piece <= 3",
+    "thorough": "safety with text <= 5 + piece <= 2",
 }
 OUTSIDE = ("texts longer than the bound; what real expat accepts among junk that imitates elements (comments, CDATA, PIs) is covered "
            "by the safety part only, where the oracle is arbitrary")
@@ -265,7 +265,7 @@ def real_truncated(m1, m2, k, T):
 def conditions(tier):
     out = []
     thorough = tier == "thorough"
-    L, P = (5, 3) if thorough else (4, 2)
+    L, P = (5, 2) if thorough else (4, 2)
     for tags_kind in ("ab", "real"):
         out.append(Condition(f"safety/{tags_kind}/disabled", make_condition(safety(L, P, tags_kind, "disabled"), 2, 1, L + P + 1),
                              about=f"arbitrary text <= {L} + piece <= {P}, arbitrary parser verdicts, threshold disabled, tags {tags_kind}",
